@@ -4,7 +4,7 @@ from fractions import Fraction
 from pcv import core, capio, sccgen
 
 P = "PcVerif.Props.C17."
-THEOREMS = [P + t for t in ["writer_bytes_odd_parity", "writer_pac_decodes_to_row", "rows_1_15", "fixed_words_odd_parity", "writer_chars_decode_back", "writer_codes_injective", "pac_word_len", "written_line_is_words", "written_row_rereads", "written_caption_rereads", "write_is_file", "written_file_rereads", "stored_caption_is_rows", "written_file_restored", "written_stamp_instant", "written_file_times", "shown_within_three_frames", "written_stamps_monotone"]]
+THEOREMS = [P + t for t in ["writer_bytes_odd_parity", "writer_pac_decodes_to_row", "rows_1_15", "fixed_words_odd_parity", "writer_chars_decode_back", "writer_codes_injective", "pac_word_len", "written_line_is_words", "written_row_rereads", "written_caption_rereads", "write_is_file", "written_file_rereads", "stored_caption_is_rows", "written_file_restored", "written_stamp_instant", "written_file_times", "shown_within_three_frames", "written_stamps_monotone", "written_file_start_end"]]
 FRAME = sccgen.FRAME
 
 
